@@ -96,7 +96,8 @@ impl TryFrom<&Number> for usize {
             Number::BigInt(bigint) => bigint.parse::<usize>(),
             Number::Integer(int) => int.parse::<usize>(),
             Number::Byte(byte) => byte.parse::<usize>(),
-            Number::Float(float) => unreachable!("not sure how to round {float}"),
+            // a float is never a valid index or size: the text of a float literal fails to parse as one
+            Number::Float(float) => float.parse::<usize>(),
         }
     }
 }
